@@ -16,6 +16,8 @@ def judge(text, impl, aux):
     if not aux or aux.get("v") is None or aux.get("t") is None:
         return None
     v, t = aux["v"], aux["t"]
+    if aux.get("exact_inputs") and (v == "float" or t == "float" or (impl.startswith("conv ") and impl.split(" ")[1] == "float")):
+        return "the query is built from exact literals, exact units and integer powers only, yet a float appears (source %s, target %s, reply %r)" % (v, t, impl[:100])
     if v == "float" or t == "float":
         return None
     v, t = frac(v), frac(t)
